@@ -189,11 +189,13 @@ func checkAllowedByAuthEvents(
 					// map and the authEvents provider so that we can retry with the
 					// new events.
 					for _, e := range ev {
-						if err := authEvents.AddEvent(e); err == nil {
-							eventsByID[e.EventID()] = e
-						} else {
-							eventsByID[e.EventID()] = nil
+						// Only state events can be auth events: an event that names
+						// anything else is refused, as it is when the named event was
+						// already in the eventsByID map.
+						if err := authEvents.AddEvent(e); err != nil {
+							return err
 						}
+						eventsByID[e.EventID()] = e
 					}
 				} else {
 					// It claims to have not returned an event - put a nil into the
